@@ -328,6 +328,7 @@ func c07Run(c *h.Ctx) {
 		}
 		c07History(c, id, c.Rng(id))
 	}
+	c07Mgmt(c) // last: it leaves a running daemon behind in this child process
 }
 
 func init() {
